@@ -67,7 +67,7 @@ class C05(Prop):
                   "BLOCK_SIZE = 64 in Exec.v; theorems are for every B >= 1. AtomicBucket has no Drop impl: blocks still in the bucket when it "
                   "is dropped are leaked with their values (observed, outside this property).")
     rule = ("2-4 threads with 1-3 calls each drawn from the mixes {2 pushers | clearer}, {pusher | clearer | snapshot}, {2 pushers at "
-            "hand-over | snapshot}, {2 clearers | pusher}, plus is_empty callers; half of the cases start with a sequential prefix of 62-64 "
+            "hand-over | snapshot}, {2 clearers | pusher}, plus is_empty callers; two in five cases start with a sequential prefix of 62-64 "
             "pushes by one thread so that the raced suffix runs across block hand-over; schedules uniform, bursty or with out-of-range "
             "indices, followed by the round-robin tail; non-trivial = a read (snapshot/clear/is_empty) overlapped a push; distinct = distinct "
             "(programs, executed trace)")
